@@ -94,10 +94,10 @@ let precq_check line =
 
 let dispatch mode line =
   match mode with
-  | "tsc" | "tscd" -> tsc line
+  | "tsc" | "tscd" | "tscs" -> tsc line
   | "dur" -> dur line
   | "prec" -> prec line
-  | "tsc.sb" | "tscd.sb" -> tsc_check line
+  | "tsc.sb" | "tscd.sb" | "tscs.sb" -> tsc_check line
   | "dur.sb" -> dur_check line
   | "prec.sb" -> prec_check line
   | "precq" -> precq line
